@@ -99,6 +99,8 @@ def check_program(prog, funcs, module_path, nin, assumptions=(), limits=None, ke
     try:
         ipaths, iex = explore_impl(funcs, module_path, nin, assumptions, limits)
         rpaths, rex = explore_ref(prog, nin, assumptions, limits)
+    except core.TooManyPaths as e:
+        return {"status": "outside-bound", "violations": [], "unknown": 0, "reason": str(e), "t": time.time() - t}
     except core.Deadline:
         return {"status": "unknown", "violations": [], "unknown": 1, "reason": "time budget of %ss used up during exploration" % limits.get("budget_s"), "t": time.time() - t}
     if keep is not None:
